@@ -1,5 +1,6 @@
 import CoreBGP.Model.Session
 import CoreBGP.Model.Timed
+import CoreBGP.Model.Reconnect
 import CoreBGP.Gen.Paths
 /-!
 # Meaning of the regenerated control paths (`Gen.codePaths`) of the message-handling state functions
@@ -284,5 +285,71 @@ def envOfTCls (c : TCls) : GEnv := fun g =>
   if g = "f.holdTime!=0" then some c.holdNZ
   else if g = "f.peer.options.holdTime<f.holdTime" then some c.localLess
   else envOfCls c.icls g
+
+/-! ## the outbound FSM before OpenSent on the paths (C11) -/
+
+/-- what `idle` / `connect` / `active` keep: the two timers and whether a dial result is outstanding -/
+structure RI where
+  crDl : Option Nat
+  idleDl : Option Nat
+  dialing : Bool
+deriving DecidableEq, Repr, Inhabited
+
+inductive REff where
+  | armCR | stopCR | dial | armIdle | cancelDial | recvDial | setConn
+deriving DecidableEq, Repr, Inhabited
+
+def reffOfCall (c : String) : List REff :=
+  if c = "set f.connectRetryTimer=time.NewTimer(f.peer.options.connectRetryTime)" then [.armCR]
+  else if c = "f.connectRetryTimer.Stop" then [.stopCR]
+  else if c = "f.dialPeer" then [.dial]
+  else if c = "f.idleHoldTimer.Reset(f.peer.options.idleHoldTime)" then [.armIdle]
+  else if c = "f.cancelDialFn" then [.cancelDial]
+  else if c = "recv f.dialResultCh" then [.recvDial]
+  else if c = "set f.conn=dr.conn" then [.setConn]
+  else []
+
+/-- taking a case of the `select` is an effect too: the dial result is received, a timer that fired is spent -/
+def reffOfGuard (g : String × Bool) : List REff :=
+  if g = ("select recv f.dialResultCh", true) then [.recvDial]
+  else if g = ("select recv f.connectRetryTimer.C", true) then [.stopCR]
+  else []
+
+def pathREffs (p : CodePath) : List REff := p.guards.flatMap reffOfGuard ++ p.calls.flatMap reffOfCall
+
+def applyREff (now cr ih : Nat) (r : RI) : REff → RI
+  | .armCR => { r with crDl := some (now + cr) }
+  | .stopCR => { r with crDl := none }
+  | .dial => { r with dialing := true }
+  | .armIdle => { r with idleDl := some (now + ih) }
+  | .cancelDial => r
+  | .recvDial => { r with dialing := false }
+  | .setConn => r
+
+def riOf (s : RSess) : RI := { crDl := s.crDl, idleDl := s.idleDl, dialing := s.dialing }
+
+/-- where a path leaves the FSM: `sendOpenAndSetHoldTimer` (the OPEN is written: the model's `connected`), or a state -/
+def pathRSt (cur : RSt) (p : CodePath) : Option RSt :=
+  if p.exit = "loop" then some cur
+  else match p.ret with
+    | [r] => if r = "call:f.sendOpenAndSetHoldTimer" then some .connected
+             else if r = "idleState" then some .idle else if r = "connectState" then some .connect
+             else if r = "activeState" then some .active else none
+    | [r, _] => if r = "idleState" then some .idle else if r = "activeState" then some .active else none
+    | _ => none
+
+/-- classes of the events of `Model.Reconnect`: the function that runs and the guards the event fixes -/
+structure RCls where
+  fn : String
+  guards : List (String × Bool)
+deriving DecidableEq, Repr, Inhabited
+
+def earlySelectGuards : List String :=
+  ["select recv f.closeCh", "select recv f.idleHoldTimer.C", "select recv f.dialResultCh", "select recv f.connectRetryTimer.C"]
+
+def envOfRCls (c : RCls) : GEnv := fun g =>
+  match c.guards.find? (·.1 = g) with
+  | some gv => some gv.2
+  | none => if earlySelectGuards.contains g || selGuards.contains g then some false else none
 
 end CoreBGP.Model
